@@ -80,7 +80,36 @@ def _runner_output(ck, b):
              "the runner can hand on %s while the stage declares Uncompressed: tiles from a compressed source leave the stage still compressed" % (bad[:2],), ir.loc(b))
 
 
+def _props_rules(ck, P):
+    """GeoProperties::update copies EVERY entry of the new properties over the old ones (overwriting insert, no filter / early exit);
+    insert stores (key, value) — the join of R-JOIN rests on both"""
+    from . import mvt
+    up = [b for b in P.bodies if b["q"].endswith("geo::properties::GeoProperties::update")]
+    ins = [b for b in P.bodies if b["q"].endswith("geo::properties::GeoProperties::insert")]
+    if not ck.anchor("R-JOIN", "GeoProperties::update/insert", up + ins, 2):
+        return
+    b = up[0]
+    lp = [n for n in ir.walk_nodes(b["body"]) if n.get("k") == "for"]
+    ok = False
+    if len(lp) == 1:
+        kv = [x["hid"] for x in ir.pat_binds(lp[0]["pat"])]
+        ps = [x for p_ in b["params"] for x in ir.pat_binds(p_) if x["name"] != "self"]
+        over = ps and any(z.get("k") == "path" and z.get("r") == "local" and z.get("hid") == ps[0]["hid"] for z in ir.walk_nodes(lp[0]["iter"]))
+        adapt = [y["name"] for y in ir.walk_nodes(lp[0]["iter"]) if y.get("k") == "mcall" and y.get("name") in ("filter", "skip", "take", "step_by", "take_while", "skip_while", "filter_map")]
+        cnt = mvt.exit_counts(P, {"body": lp[0]["body"]}, lambda y: 1 if (y.get("k") == "mcall" and (y.get("q") or "").endswith(("BTreeMap::insert", "HashMap::insert")) and len(y.get("a", ())) == 2 and
+                                                                      len(kv) == 2 and any(z.get("hid") == kv[0] for z in ir.walk_nodes(y["a"][0]) if z.get("k") == "path") and
+                                                                      any(z.get("hid") == kv[1] for z in ir.walk_nodes(y["a"][1]) if z.get("k") == "path")) else None)
+        esc = [y["k"] for y in ir.walk_nodes(lp[0]["body"]) if y.get("k") in ("break", "continue", "ret")]
+        ok = bool(over) and not adapt and cnt == {1} and not esc
+    ck.check(ok, "R-JOIN", b["q"], "update inserts (k, v) for every entry of the new properties, overwriting", "GeoProperties::update does not copy every new entry over the old ones", ir.loc(b))
+    b = ins[0]
+    ps = [x for p_ in b["params"] for x in ir.pat_binds(p_) if x["name"] != "self"]
+    c = [y for y in ir.walk_nodes(b["body"]) if y.get("k") == "mcall" and (y.get("q") or "").endswith(("BTreeMap::insert", "HashMap::insert")) and len(y.get("a", ())) == 2]
+    ck.check(len(c) == 1 and len(ps) == 2 and ir.local_hid(c[0]["a"][0]) == ps[0]["hid"] and ir.local_hid(c[0]["a"][1]) == ps[1]["hid"], "R-JOIN", b["q"], "insert stores (key, value)", "GeoProperties::insert does not store (key, value)", ir.loc(b))
+
+
 def rules(ck, P):
+    _props_rules(ck, P)
     mvt.table_fidelity(ck, P)
     mvt.pbf_rules(ck, P)
     mvt.feature_write_rule(ck, P)
